@@ -128,7 +128,7 @@ impl Property for P {
             Tier::Quick => 20,
             Tier::Thorough => 40,
         };
-        (
+        let normal = (
             prop_oneof![
                 60 => prop::collection::vec(frag_any(), 0..=n),
                 1 => gen::log_count(2000).prop_flat_map(|k| prop::collection::vec(frag_any(), k..=k)),
@@ -140,8 +140,21 @@ impl Property for P {
                 2 => gen::penalties_any(),
             ],
         )
-            .prop_map(|(frags, widths, pen)| Case { frags, widths, pen })
-            .boxed()
+            .prop_map(|(frags, widths, pen)| Case { frags, widths, pen });
+        // more than 2^16 lines: many small fragments on narrow lines
+        let huge = (gen::log_count(150_000), 1u32..=4, 0u32..=2, 1u32..=8).prop_map(|(n, w, ws, lw)| Case {
+            frags: vec![
+                Frag {
+                    w: w as f64,
+                    ws: ws as f64,
+                    p: 0.0
+                };
+                n
+            ],
+            widths: vec![lw as f64],
+            pen: PenSpec::DEFAULT,
+        });
+        prop_oneof![2000 => normal, 1 => huge].boxed()
     }
     fn check(c: &Case, _m: Mode) -> Outcome {
         check(c)
